@@ -1050,10 +1050,25 @@ def _do(ctx: Ctx, suite: str, inp: Dict[str, Any]):
     CHECKS[suite](ctx, inp)
 
 
+def _sharded_in_slab_suite(ctx: Ctx):
+    """Subdivided shards of one sharded tensor packed into one slab by the write batcher, read back through the sharded
+    read plan (merged or not) into another partition: C08's reshard case with slab batching forced on."""
+    from props import c08
+    c08._setup()
+    for _ in range(ctx.n(60, 600)):
+        inp = c08._rand_reshard_input(ctx.rng)
+        numel = 1
+        for x in inp.get("shape", [1]):
+            numel *= x
+        inp["batch"] = ctx.rng.choice([10 ** 9, 10 ** 9, numel * 8 + 1])
+        c08._case_reshard(ctx, inp, suite="shards_in_slab")
+
+
 def run(ctx: Ctx):
     rng = ctx.rng
     for suite, inp in CORPUS:
         _do(ctx, suite, inp)
+    _sharded_in_slab_suite(ctx)
     # torch.chunk itself: exhaustive small
     N = ctx.n(14, 40)
     for d in range(N + 1):
@@ -1120,6 +1135,13 @@ def run(ctx: Ctx):
 def replay(ctx: Ctx, rec):
     inp = rec["input"]
     suite = inp.get("suite")
+    if rec.get("suite") == "shards_in_slab" or (suite is None and "batch" in inp):
+        from props import c08
+        c08._setup()
+        c08._case_reshard(ctx, inp, suite="replay", verbose=True)
+        for f in ctx.failures:
+            print("FAIL", f["sig"], f["what"], f["observed"])
+        return
     if suite not in CHECKS:
         print("cannot replay: no suite in input")
         return
